@@ -122,3 +122,23 @@ Proof.
   destruct IH as [I1 I2]. destruct (chunk3_spec n s Hs) as [C1 C2].
   unfold airplane_facets in *. simpl. rewrite List.concat_app, app_length, I1, I2, C1, C2. split; reflexivity.
 Qed.
+
+(* ---- labels of the distributions file ---- *)
+Lemma substring_all s n : String.length s <= n -> substring 0 n s = s.
+Proof.
+  revert n; induction s as [|c r IH]; intros n H.
+  - destruct n; reflexivity.
+  - destruct n as [|n]; [cbn in H; inversion H|]. cbn [substring]. f_equal. apply IH. cbn in H. apply le_S_n. exact H.
+Qed.
+Lemma name_width_ge names n : In n names -> String.length n <= name_width names.
+Proof.
+  unfold name_width. induction names as [|a r IH]; intros H; [destruct H|].
+  cbn [map fold_right]. destruct H as [->|H].
+  - apply Nat.le_max_l.
+  - etransitivity; [apply IH; exact H | apply Nat.le_max_r].
+Qed.
+Theorem csv_labels_are_names names n : In n names -> csv_label (name_width names) n = n.
+Proof. intros H. apply substring_all. apply name_width_ge. exact H. Qed.
+Theorem csv_labels_injective names a b : In a names -> In b names ->
+  csv_label (name_width names) a = csv_label (name_width names) b -> a = b.
+Proof. intros Ha Hb. rewrite !csv_labels_are_names by assumption. exact (fun H => H). Qed.
